@@ -210,3 +210,50 @@ theorem repeatsSpec_zero {κ : Type} [BEq κ] [LawfulBEq κ] (key : Inst → κ)
       exact hnd'.1 (h ▸ List.mem_map.mpr ⟨y, hy, rfl⟩)
 
 end Pyx.Check
+
+/-! ### extension: `check_subtype_integrity` counts the supertype instances without any subtype partner -/
+namespace Pyx.Check
+open Pyx.Meta Pyx.Query
+
+/-- does navigating from `x` to the link key's class over `rel` (phrase '') yield nothing? (`false` if it raises) -/
+def keyEmpty (sch : Schema) (s : State) (x : Inst) (rel : String) (e : LinkEntry) : Bool :=
+  match navigate sch s x e.toKind rel "" with
+  | some l => l.isEmpty
+  | none => false
+
+/-- every link key with the rel id has an empty partner list for `x` -/
+def noSubtype (sch : Schema) (s : State) (x : Inst) (rel : String) (d : List LinkEntry) : Bool :=
+  d.all (fun e => !(e.rel == rel) || keyEmpty sch s x rel e)
+
+theorem navSubtypeFrom_nothing_iff (sch : Schema) (s : State) (x : Inst) (rel : String) : ∀ (d : List LinkEntry),
+    (∀ e ∈ d, e.rel = rel → ∃ l, navigate sch s x e.toKind rel "" = some l) →
+    (match navSubtypeFrom sch s x rel d with
+      | some (some _) => false
+      | _ => true) = noSubtype sch s x rel d
+  | [], _ => rfl
+  | e :: r, h => by
+    have ih := navSubtypeFrom_nothing_iff sch s x rel r (fun e' he' => h e' (by simp [he']))
+    unfold navSubtypeFrom noSubtype
+    by_cases he : e.rel = rel
+    · obtain ⟨l, hl⟩ := h e (by simp) he
+      simp only [he, beq_self_eq_true, ↓reduceIte, hl, List.all_cons, Bool.not_true, Bool.false_or, keyEmpty]
+      cases l with
+      | nil =>
+        simp only [List.head?_nil, List.isEmpty_nil, Bool.true_and]
+        exact ih
+      | cons y t => simp
+    · have hb : (e.rel == rel) = false := by simpa using he
+      simp only [hb, Bool.false_eq_true, ↓reduceIte, List.all_cons, Bool.not_false, Bool.true_or, Bool.true_and]
+      exact ih
+
+theorem countP_congr' {α : Type} (p q : α → Bool) : ∀ (l : List α), (∀ x ∈ l, p x = q x) → l.countP p = l.countP q
+  | [], _ => rfl
+  | a :: l, h => by
+    simp only [List.countP_cons, h a (by simp), countP_congr' p q l (fun x hx => h x (by simp [hx]))]
+
+theorem all_congr_mem {α : Type} (p q : α → Bool) : ∀ (l : List α), (∀ x ∈ l, p x = q x) → l.all p = l.all q
+  | [], _ => rfl
+  | a :: l, h => by
+    simp only [List.all_cons, h a (by simp), all_congr_mem p q l (fun x hx => h x (by simp [hx]))]
+
+end Pyx.Check
